@@ -155,6 +155,7 @@ func (u *PsipURI) AdjustOffs(newpos PField) bool {
 		}
 		return false
 	}
+	saved := *u // restored if newpos turns out to be too small
 	start := u.Scheme.Offs
 	last := offs
 	u.Scheme.Offs = offs
@@ -183,7 +184,9 @@ func (u *PsipURI) AdjustOffs(newpos PField) bool {
 		last = u.Headers.Offs + u.Headers.Len
 	}
 	if last > end {
-		panic("PsipURI.AdjustOffs: offset past end")
+		// the fields fit, but not together with the delimiters between them
+		*u = saved
+		return false
 	}
 	return true
 }
